@@ -10,6 +10,8 @@ From TskVerif Require Import C01.IndexProofs.
 From TskVerif Require Import C01.QueryProofs.
 From TskVerif Require Import C01.EdgeProofs.
 From TskVerif Require Import C01.LinkProofs.
+From TskVerif Require Import C01.RepProofs.
+From TskVerif Require Import C01.TraversalProofs.
 From TskVerif Require Import C01.Theorems.
 Import ListNotations.
 Open Scope Z_scope.
@@ -179,3 +181,52 @@ Theorem remove_branch_unlinks : forall t p c t' l1 l2,
   Chain t' p (l1 ++ l2) /\
   (forall p' l', p' <> p -> Chain t p' l' -> (forall x, In x (l1 ++ c :: l2) -> ~ In x l') -> Chain t' p' l').
 Proof. exact remove_branch_chain. Qed.
+
+(* (d, links_consistent + roots) in every tree of the sweep (any root_threshold >= 1) there are
+   lists K p, one per node p and one for the virtual root N, such that
+   - walking left_child[p], right_sib, ... yields exactly K p (and left_sib / right_child[p] the
+     reverse), K p has no duplicates, num_children[p] = |K p|, and the model's child walk
+     [children_of] (the loop of Tree.children / the traversals) returns K p without running
+     out of fuel;
+   - for a real node p: c is in K p  iff  parent[c] = p;
+   - for the virtual root: c is in K N  iff  c has no parent and num_samples[c] >= root_threshold
+     (so [roots] are exactly the parentless nodes that are ancestral to at least
+     root_threshold samples). *)
+Theorem links_consistent : forall L ns es Ins Rem q,
+  valid_edgesb L ns es = true -> index_sorted es Ins Rem -> mk_tseq L ns es Ins Rem = Ok q ->
+  forall o, 1 <= o_thr o -> forall k t, tree_at_index q o k = Ok t ->
+  let N := zlen ns in
+  exists K : Z -> list Z,
+    (forall p, 0 <= p <= N ->
+       Chain t p (K p) /\ NoDup (K p) /\ get (t_nc t) p = Ok (zlen (K p)) /\
+       children_of t p = Ok (K p)) /\
+    (forall p c, 0 <= p < N -> (In c (K p) <-> 0 <= c < N /\ get (t_parent t) c = Ok p)) /\
+    (forall c, In c (K N) <->
+       0 <= c < N /\ get (t_parent t) c = Ok NULL /\
+       exists n, get (t_ns t) c = Ok n /\ o_thr o <= n).
+Proof. exact links_consistent_top. Qed.
+
+(* (d, preorder) [Pre K u l] is the recursive definition: l = u followed by the preorders of
+   the children of u in list order.  A recursive preorder starts with u and contains exactly
+   the descendants of u.  In every tree of the sweep tsk_tree_preorder_from(root) (the explicit
+   stack loop) returns the recursive preorder of root over the child lists K of
+   links_consistent (for root = -1: the concatenation over the roots in root order; for the
+   virtual root: the virtual root followed by that). *)
+Theorem preorder_members : forall K u l,
+  Pre K u l -> hd NULL l = u /\ forall x, In x l <-> Desc K u x.
+Proof. exact Pre_members. Qed.
+
+Theorem preorder_correct : forall L ns es Ins Rem q,
+  valid_edgesb L ns es = true -> index_sorted es Ins Rem -> mk_tseq L ns es Ins Rem = Ok q ->
+  forall o, 1 <= o_thr o -> forall k t, tree_at_index q o k = Ok t ->
+  let N := zlen ns in
+  exists K : Z -> list Z,
+    (forall p c, 0 <= p < N -> (In c (K p) <-> 0 <= c < N /\ get (t_parent t) c = Ok p)) /\
+    (forall c, In c (K N) <->
+       0 <= c < N /\ get (t_parent t) c = Ok NULL /\
+       exists n, get (t_ns t) c = Ok n /\ o_thr o <= n) /\
+    (forall p, 0 <= p <= N -> children_of t p = Ok (K p)) /\
+    forall root out, preorder_from N t root = Ok out ->
+      (root = -1 /\ exists ls, Forall2 (Pre K) (K N) ls /\ out = concat ls) \/
+      (0 <= root <= N /\ Pre K root out).
+Proof. exact preorder_correct_lemma. Qed.
